@@ -105,8 +105,7 @@ func (a *Act) callWithArgs(ctx *blockCtx, c *ssa.CallCommon, args []Val, fnv Val
 		return a.dynCall(ctx, c, args, fnv, resT, b, idx, pos)
 	}
 	key := funcKey(callee)
-	n := a.callSeen[key]
-	a.callSeen[key] = n + 1
+	n := a.ordinalOf(b.Instrs[idx], shortName(key))
 	a.anchors(ctx, shortName(key), n, false, b, idx)
 	a.pending = append(a.pending, pendingAnchor{callee: shortName(key), n: n})
 
@@ -486,8 +485,7 @@ func (g *Gen) fieldHeapByName(nt *types.Named, name string) (string, error) {
 func (a *Act) invoke(ctx *blockCtx, c *ssa.CallCommon, args []Val, recv Val, resT types.Type, b *ssa.BasicBlock, idx int, pos token.Pos) (Val, []Val) {
 	g := a.g
 	key := ifaceMethodKey(c.Value.Type(), c.Method)
-	n := a.callSeen[key]
-	a.callSeen[key] = n + 1
+	n := a.ordinalOf(b.Instrs[idx], shortName(key))
 	a.anchors(ctx, shortName(key), n, false, b, idx)
 	a.pending = append(a.pending, pendingAnchor{callee: shortName(key), n: n})
 	if spec, ok := g.w.ifaceSpecs[key]; ok {
@@ -655,6 +653,14 @@ func (a *Act) anchors(ctx *blockCtx, callee string, n int, after bool, b *ssa.Ba
 		}
 		an.bound = true
 		env := a.envAt(ctx.st, b, idx)
+		for _, c := range an.Block {
+			// the operation blocks forever when the condition holds: execution continues only otherwise
+			t := a.trClause(env, c, "blockif")
+			nr := a.g.fresh("r_unblocked", "Bool")
+			a.g.fact("(= " + nr + " " + and(ctx.reach, not(t)) + ")")
+			ctx.reach = nr
+			a.g.usedAssumed["channel semantics: a send blocks forever once the receiver has stopped receiving ("+c.Src+")"] = true
+		}
 		for k, c := range an.Assert {
 			t := a.trClause(env, c, "assert")
 			a.g.oblige("assert", fmt.Sprintf("%s/at:%s#%d/assert%d%s", a.key, callee, n, k, labelSuffix(c)), ctx.reach, t, c.Src, fmt.Sprintf("%s:%d", c.File, c.Line), a.clauseProps(c))
@@ -754,8 +760,7 @@ func (a *Act) ghostAssign(ctx *blockCtx, env *Env, gu GhostUpdate) {
 
 // send on a channel: anchored ghost code "at send#N".
 func (a *Act) send(ctx *blockCtx, x *ssa.Send, b *ssa.BasicBlock, idx int) {
-	n := a.callSeen["$send"]
-	a.callSeen["$send"] = n + 1
+	n := a.ordinalOf(x, "send")
 	if a.spec == nil {
 		a.g.problem("%s: channel send in uncontracted (inlined) function", a.key)
 		return
@@ -982,4 +987,63 @@ func (a *Act) bumpWMDefault(ctx *blockCtx) {
 	n := g.fresh("wm", "Int")
 	g.fact("(>= " + n + " " + old + ")")
 	ctx.st["$wm"] = n
+}
+
+// ordinalOf: the n-th call of `name` in the function, counted in source order.
+func (a *Act) ordinalOf(ins ssa.Instruction, name string) int {
+	if a.ordinals == nil {
+		a.ordinals = map[ssa.Instruction]int{}
+		type ent struct {
+			ins ssa.Instruction
+			pos token.Pos
+			blk, idx int
+		}
+		by := map[string][]ent{}
+		for _, b := range a.fn.Blocks {
+			for i, in := range b.Instrs {
+				var nm string
+				switch x := in.(type) {
+				case *ssa.Call:
+					nm = callName(&x.Call)
+				case *ssa.Defer:
+					nm = callName(&x.Call)
+				case *ssa.Go:
+					nm = callName(&x.Call)
+				case *ssa.Send:
+					nm = "send"
+				}
+				if nm != "" {
+					by[nm] = append(by[nm], ent{in, in.Pos(), b.Index, i})
+				}
+			}
+		}
+		for _, es := range by {
+			sort.SliceStable(es, func(i, j int) bool {
+				if es[i].pos != es[j].pos {
+					return es[i].pos < es[j].pos
+				}
+				if es[i].blk != es[j].blk {
+					return es[i].blk < es[j].blk
+				}
+				return es[i].idx < es[j].idx
+			})
+			for k, e := range es {
+				a.ordinals[e.ins] = k
+			}
+		}
+	}
+	return a.ordinals[ins]
+}
+
+func callName(c *ssa.CallCommon) string {
+	if c.IsInvoke() {
+		return shortName(ifaceMethodKey(c.Value.Type(), c.Method))
+	}
+	if callee := c.StaticCallee(); callee != nil {
+		return shortName(funcKey(callee))
+	}
+	if b, ok := c.Value.(*ssa.Builtin); ok {
+		return b.Name()
+	}
+	return "dyn"
 }
